@@ -1147,5 +1147,89 @@ theorem src_find_nearest_step {α : Type} [Field α] [LinearOrder α] [IsStrictO
     cases arr[low + (high - low) / 2]? <;> simp
   · simp [Interp.bsearch, h, find_nearest_loop, Rel.nat]
 
+/-- the one `inAxis` of the model is the pair of comparisons the source has in this arm / axis of
+`validate_inputs` (`interp.g[0] <= p && p <= interp.g.last()`), operator by operator -/
+theorem src_in_grid_1d_x {α : Type} [Field α] [LinearOrder α] [IsStrictOrderedRing α] [Lit α] [LawfulLit α] (g : List α) (p : α) :
+    Interp.inAxis g p =
+      (Interp.idx g 0).bind fun lo =>
+        match g.getLast? with
+        | none => .panic .index
+        | some hi => .ok ((in_grid_1d_x_low.num lo p == some true) && (in_grid_1d_x_high.num p hi == some true)) := by
+  unfold Interp.inAxis
+  cases Interp.idx g 0 <;> simp [Interp.Res.bind, in_grid_1d_x_low, in_grid_1d_x_high, Rel.num]
+  cases g.getLast? <;> simp
+
+/-- the one `inAxis` of the model is the pair of comparisons the source has in this arm / axis of
+`validate_inputs` (`interp.g[0] <= p && p <= interp.g.last()`), operator by operator -/
+theorem src_in_grid_2d_x {α : Type} [Field α] [LinearOrder α] [IsStrictOrderedRing α] [Lit α] [LawfulLit α] (g : List α) (p : α) :
+    Interp.inAxis g p =
+      (Interp.idx g 0).bind fun lo =>
+        match g.getLast? with
+        | none => .panic .index
+        | some hi => .ok ((in_grid_2d_x_low.num lo p == some true) && (in_grid_2d_x_high.num p hi == some true)) := by
+  unfold Interp.inAxis
+  cases Interp.idx g 0 <;> simp [Interp.Res.bind, in_grid_2d_x_low, in_grid_2d_x_high, Rel.num]
+  cases g.getLast? <;> simp
+
+/-- the one `inAxis` of the model is the pair of comparisons the source has in this arm / axis of
+`validate_inputs` (`interp.g[0] <= p && p <= interp.g.last()`), operator by operator -/
+theorem src_in_grid_2d_y {α : Type} [Field α] [LinearOrder α] [IsStrictOrderedRing α] [Lit α] [LawfulLit α] (g : List α) (p : α) :
+    Interp.inAxis g p =
+      (Interp.idx g 0).bind fun lo =>
+        match g.getLast? with
+        | none => .panic .index
+        | some hi => .ok ((in_grid_2d_y_low.num lo p == some true) && (in_grid_2d_y_high.num p hi == some true)) := by
+  unfold Interp.inAxis
+  cases Interp.idx g 0 <;> simp [Interp.Res.bind, in_grid_2d_y_low, in_grid_2d_y_high, Rel.num]
+  cases g.getLast? <;> simp
+
+/-- the one `inAxis` of the model is the pair of comparisons the source has in this arm / axis of
+`validate_inputs` (`interp.g[0] <= p && p <= interp.g.last()`), operator by operator -/
+theorem src_in_grid_3d_x {α : Type} [Field α] [LinearOrder α] [IsStrictOrderedRing α] [Lit α] [LawfulLit α] (g : List α) (p : α) :
+    Interp.inAxis g p =
+      (Interp.idx g 0).bind fun lo =>
+        match g.getLast? with
+        | none => .panic .index
+        | some hi => .ok ((in_grid_3d_x_low.num lo p == some true) && (in_grid_3d_x_high.num p hi == some true)) := by
+  unfold Interp.inAxis
+  cases Interp.idx g 0 <;> simp [Interp.Res.bind, in_grid_3d_x_low, in_grid_3d_x_high, Rel.num]
+  cases g.getLast? <;> simp
+
+/-- the one `inAxis` of the model is the pair of comparisons the source has in this arm / axis of
+`validate_inputs` (`interp.g[0] <= p && p <= interp.g.last()`), operator by operator -/
+theorem src_in_grid_3d_y {α : Type} [Field α] [LinearOrder α] [IsStrictOrderedRing α] [Lit α] [LawfulLit α] (g : List α) (p : α) :
+    Interp.inAxis g p =
+      (Interp.idx g 0).bind fun lo =>
+        match g.getLast? with
+        | none => .panic .index
+        | some hi => .ok ((in_grid_3d_y_low.num lo p == some true) && (in_grid_3d_y_high.num p hi == some true)) := by
+  unfold Interp.inAxis
+  cases Interp.idx g 0 <;> simp [Interp.Res.bind, in_grid_3d_y_low, in_grid_3d_y_high, Rel.num]
+  cases g.getLast? <;> simp
+
+/-- the one `inAxis` of the model is the pair of comparisons the source has in this arm / axis of
+`validate_inputs` (`interp.g[0] <= p && p <= interp.g.last()`), operator by operator -/
+theorem src_in_grid_3d_z {α : Type} [Field α] [LinearOrder α] [IsStrictOrderedRing α] [Lit α] [LawfulLit α] (g : List α) (p : α) :
+    Interp.inAxis g p =
+      (Interp.idx g 0).bind fun lo =>
+        match g.getLast? with
+        | none => .panic .index
+        | some hi => .ok ((in_grid_3d_z_low.num lo p == some true) && (in_grid_3d_z_high.num p hi == some true)) := by
+  unfold Interp.inAxis
+  cases Interp.idx g 0 <;> simp [Interp.Res.bind, in_grid_3d_z_low, in_grid_3d_z_high, Rel.num]
+  cases g.getLast? <;> simp
+
+/-- the one `inAxis` of the model is the pair of comparisons the source has in this arm / axis of
+`validate_inputs` (`interp.g[0] <= p && p <= interp.g.last()`), operator by operator -/
+theorem src_in_grid_nd {α : Type} [Field α] [LinearOrder α] [IsStrictOrderedRing α] [Lit α] [LawfulLit α] (g : List α) (p : α) :
+    Interp.inAxis g p =
+      (Interp.idx g 0).bind fun lo =>
+        match g.getLast? with
+        | none => .panic .index
+        | some hi => .ok ((in_grid_nd_low.num lo p == some true) && (in_grid_nd_high.num p hi == some true)) := by
+  unfold Interp.inAxis
+  cases Interp.idx g 0 <;> simp [Interp.Res.bind, in_grid_nd_low, in_grid_nd_high, Rel.num]
+  cases g.getLast? <;> simp
+
 end C14
 end Compass
